@@ -337,6 +337,14 @@ def body_roundtrip_model(E, eng, v1, v2, v3, v4, a_none, chunks):
         if engine != "joblib" and cbool(a_none):
             fe["attrs"]["flag"] = "None"                 # the documented rewriting
         ok = same_fp(fe, fb)
+        # what was loaded is the caller's own copy: saving other (same-shaped) data under the name afterwards
+        # does not change it
+        if ok and not kw:
+            if real:
+                back.close()
+            other = make() + 1 if real else make()._map(lambda c: c + 1)
+            mg.save_ds(other, path, engine=engine)
+            ok = same_fp(fe, fingerprint(env, back))
         if real:
             back.close()
         # the caller's dataset keeps its variables' dimension order
